@@ -45,6 +45,7 @@ def run(prog, E=None, rule="R-FIELDLEAK", floor=40):
             continue
         asg = _assignments(f)
         stores = {}
+        mixed_locals = {}
         for b, i, e in f.elements():
             if e[0] != "A" or e[1][1] != "=":
                 continue
@@ -58,13 +59,19 @@ def run(prog, E=None, rule="R-FIELDLEAK", floor=40):
             if any(isinstance(nd, list) and nd and nd[0] == "m" and nd[2] == fld for nd in walk(rhs)):
                 continue
             r0 = strip(rhs)
+            viaLocal = None
             if is_var(r0, kind="l") and any(any(isinstance(nd, list) and nd and nd[0] == "m" and nd[2] == fld for nd in walk(r)) for r in asg.get(r0[2], [])):
-                continue
-            stores[(b["id"], i)] = (fld, base, e)
+                # the local holds, on some paths, a re-allocation of the old block: which of its values reaches the store is followed in the
+                # dataflow below (fresh on one branch, realloc (X->F) on the other)
+                viaLocal = r0[2]
+                mixed_locals.setdefault(viaLocal, fld)
+            stores[(b["id"], i)] = (fld, base, e, viaLocal)
         if not stores:
             continue
         nstore += len(stores)
         fields = {v[0] for v in stores.values()}
+        stores_full = dict(stores)
+        stores = {k_: v[:3] for k_, v in stores_full.items()}
         # records created here: locals assigned an allocation, or whose address is taken (stack records)
         fresh_bases = set()
         for n, rs in asg.items():
@@ -133,15 +140,23 @@ def run(prog, E=None, rule="R-FIELDLEAK", floor=40):
             key = (b["id"], i)
             c = clears(e, st)
             ns = (set(st) - c) | (held_by(e) - c)
+            if e[0] == "A" and e[1][1] == "=" and is_var(e[1][2], kind="l") and strip(e[1][2])[2] in mixed_locals:
+                L = strip(e[1][2])[2]
+                fresh = const_of(e[1][3]) != 0 and _alloc_value(f, {}, e[1][3]) and not any(
+                    isinstance(nd, list) and nd and nd[0] == "m" and nd[2] == mixed_locals[L] for nd in walk(e[1][3]))
+                ns.discard(("fresh", L))
+                if fresh:
+                    ns.add(("fresh", L))
             if key in stores:
                 fld, base, el = stores[key]
-                if (fld, base) in st and (fld, base) not in c:
+                via = stores_full[key][3]
+                if (fld, base) in st and (fld, base) not in c and (via is None or ("fresh", via) in st):
                     bad.setdefault(key, (b["id"], st))
                 ns.discard((fld, base))          # the field holds the new block now: nothing is known to be pending
             if e[0] == "A" and is_var(e[1][2]):
                 # the base variable is re-pointed: facts about its fields are void
                 nm = strip(e[1][2])[2]
-                ns = {x for x in ns if not (x[1] == nm or x[1].startswith(nm + "->"))}
+                ns = {x for x in ns if x[0] == "fresh" or not (x[1] == nm or x[1].startswith(nm + "->"))}
             return [frozenset(ns)] if ns != set(st) else None
 
         def refine(cond, truth, st):
